@@ -23,10 +23,10 @@ LEVEL_TEXT = ("All single-fault positions of each explored history are enumerate
               "checked, and a re-open after close must work and read back the target's memory.")
 ASSUMPTIONS = [
     "a transport fault kills the TCP stream: later operations on that socket fail and the target drops the client's session and connections",
-    "single faults per history; histories of up to 12 calls; double faults are not explored",
+    "every single-fault position of each history; double faults are sampled (4 pairs per history in quick, all first positions x 3 second positions in thorough), not enumerated",
     "the with-block's own exception (raised by the harness inside the block) must propagate unchanged",
 ]
-FLOORS = {"quick": {"fault-runs": 4000, "histories": 150, "policy.refusing": 30, "reopen-checked": 300},
+FLOORS = {"quick": {"fault-runs": 4000, "histories": 150, "policy.refusing": 30, "reopen-checked": 300, "double-fault-both-fired": 200},
           "thorough": {"fault-runs": 300000, "histories": 5000}}
 
 PROJECT = {"udts": [], "programs": [], "extras": [], "tags": [
@@ -78,16 +78,10 @@ def _run_history(case, fault=None):
     install_shim(shim)
     discs = []
     info = {"reopen": 0}
-    label = "fault" if fault else "nofault"
-    state = {"s": "closed", "ever_faulted": False}
+    label = ("fault2" if isinstance(fault, list) else "fault") if fault else "nofault"
+    state = {"s": "closed", "ever_faulted": False, "seen": 0}
     drv = make_driver(kind)
     healthy_policy = case["policy"].get("session", "ok") == "ok" and case["policy"].get("fo", "large") != "none"
-
-    def note_fault():
-        if shim.fault_fired and not state["ever_faulted"]:
-            state["ever_faulted"] = True
-            return True
-        return False
 
     def do(op):
         """one public call; returns ('ok', value) | ('exc', PycommError) ; foreign exceptions are findings"""
@@ -95,7 +89,7 @@ def _run_history(case, fault=None):
         if kind == "cip" and name in ("read", "write"):   # the base driver has no tag services
             name = "gconn" if name == "read" else "gunconn"
             op = {"op": name}
-        fired_before = shim.fault_fired
+        fired_before = shim.faults_fired
         try:
             if name == "open":
                 r = drv.open()
@@ -127,7 +121,7 @@ def _run_history(case, fault=None):
                 raise
             discs.append(Disc(f"{label}.foreign.{type(e).__name__}.{name}.{S.where(e)}", f"{name} raised {e!r}; fault={fault}"[:400]))
             out = ("exc", e)
-        fault_in_call = shim.fault_fired and not fired_before
+        fault_in_call = shim.faults_fired > fired_before
         after(op, out, fault_in_call)
         return out
 
@@ -141,9 +135,13 @@ def _run_history(case, fault=None):
         if tgt.fo_attempts and tgt.fo_attempts[0][0] != "large" and not info.get("fo_order_reported"):
             info["fo_order_reported"] = True
             discs.append(Disc(f"{label}.fo-order", f"first Forward Open of this driver was {tgt.fo_attempts[0]}"))
-        if fault_in_call or shim.fault_fired and state["s"] == "healthy":
-            if state["s"] != "closed":
-                state["s"] = "broken"
+        new_fault = shim.faults_fired > state["seen"]     # also a fault that fired outside do(), e.g. while a with-block was entered
+        state["seen"] = shim.faults_fired
+        if new_fault:
+            state["ever_faulted"] = True
+        fault_in_call = fault_in_call or new_fault
+        if fault_in_call and state["s"] != "closed":
+            state["s"] = "broken"
         if name == "close":
             if drv.connected:
                 discs.append(Disc(f"{label}.close.still-connected", "driver.connected is True after close()"))
@@ -161,7 +159,7 @@ def _run_history(case, fault=None):
                     state["s"] = "healthy"
                     if state["ever_faulted"] or info.get("closed_once"):
                         info["reopen"] += 1
-                elif out[0] == "exc" and not fault_in_call and not shim.fault_fired and case["policy"].get("session", "ok") == "ok" and \
+                elif out[0] == "exc" and not fault_in_call and case["policy"].get("session", "ok") == "ok" and \
                         (kind != "logix" or case["policy"].get("fo", "large") != "none"):
                     discs.append(Disc(f"{label}.open.fails", f"open() on a reachable target raised {out[1]!r} <- {out[1].__cause__!r}"[:400]))
                 elif out[0] == "ok" and not fault_in_call:
@@ -213,7 +211,7 @@ def _run_history(case, fault=None):
                     # open failed in __enter__ or close failed in __exit__
                     if drv.connected and entered:
                         discs.append(Disc(f"{label}.with.still-connected", f"connected after the with-block ended with {e!r}"))
-                    state["s"] = "closed" if not drv.connected else "broken"
+                    state["s"] = "closed" if entered and not drv.connected else "broken"   # __exit__ (close) only runs once the block was entered
                 except StepBudgetExceeded:
                     raise
                 except Exception as e:
@@ -237,8 +235,6 @@ def _run_history(case, fault=None):
                 do({"op": "read", "i": 2})
             elif state["s"] == "healthy":
                 do({"op": "gunconn"})
-            elif out[0] == "ok" and out[1] and not (shim.fault_fired and fault and shim.ops <= fault["at"] + 3):
-                pass
             do({"op": "close"})
     except StepBudgetExceeded:
         pass
@@ -251,6 +247,7 @@ def _run_history(case, fault=None):
     info["ops"] = shim.ops
     info["op_kinds"] = "".join(shim.op_kinds)
     info["fault_fired"] = shim.fault_fired
+    info["faults_fired"] = shim.faults_fired
     return discs, info
 
 
@@ -278,6 +275,23 @@ def check_case(ctx, case):
             if d:
                 case2 = dict(case, fault=fault)
                 return [Disc(x.bucket, x.detail + f" [fault {fault} of {n} ops]") for x in d], True, sorted(cls | {"with-fault"})
+    # double faults: a second fault somewhere in what the driver does after the first one (the recovery path: close, re-open, retry)
+    pairs = [tuple(x) for x in case.get("pairs", [])] if n else []
+    if ctx.tier == "thorough" and pairs:
+        pairs = [(k1, pairs[j][1] + 7 * k1, (k1 + pairs[j][2]) % 3, pairs[j][3]) for k1 in range(n) for j in range(3)]
+    for a, b, v1, v2 in pairs:
+        k1 = a % n
+        f1 = {"at": k1, "send": kinds_send[v1], "recv": kinds_recv[v1]}
+        n1 = run_history(case, f1)[1]["ops"]
+        if n1 <= k1 + 1:
+            continue
+        k2 = k1 + 1 + b % (n1 - k1 - 1)
+        fault = [f1, {"at": k2, "send": kinds_send[v2], "recv": kinds_recv[v2]}]
+        d, inf = run_history(case, fault)
+        ctx.bulk(1, [hash((ctx.job_index, ctx.evaluations, k1, k2, v1, v2)) & 0xFFFFFFFFFFFF], {"double-fault-runs": 1, "double-fault-both-fired": int(inf["faults_fired"] == 2),
+                                                                                                  "reopen-checked": inf["reopen"]})
+        if d:
+            return [Disc(x.bucket, x.detail + f" [faults {fault} of {n} ops]") for x in d], True, sorted(cls | {"with-fault"})
     return [], ("policy.refusing" in cls or n > 0) and len([o for o in case["ops"] if o["op"] in ("open", "close", "with")]) >= 1, sorted(cls)
 
 
@@ -317,7 +331,8 @@ def cases(draw):
                                              st.integers(0, 0xFFFF).map(lambda c: [0x01, [c]])))
     chunks = draw(st.sampled_from([[1 << 20], [1 << 20], [1, 2, 3, 500], [7], [3, 1 << 20], [24, 1, 1 << 20]]))
     return {"driver": kind, "ops": ops, "policy": policy, "chunks": chunks, "rot": draw(st.integers(0, 2)), "stride": 1, "phase": 0,
-            "entropy": draw(st.sampled_from(["os", "os", "os", "min", "max"]))}
+            "entropy": draw(st.sampled_from(["os", "os", "os", "min", "max"])),
+            "pairs": draw(st.lists(st.tuples(st.integers(0, 9999), st.integers(0, 9999), st.integers(0, 2), st.integers(0, 2)), min_size=4, max_size=4))}
 
 
 def sample_of(c):
